@@ -68,7 +68,8 @@ Better(a, b) == \/ ev[a].ts < ev[b].ts
 -----------------------------------------------------------------------------
 (* Client state.                                                            *)
 
-NoRecord == [st |-> "none", epoch |-> NoEpoch, data |-> NoGroupState, last |-> NoE, su |-> FALSE]
+NoKey == [ca |-> -1, pa |-> -1, idr |-> -1]
+NoRecord == [st |-> "none", epoch |-> NoEpoch, data |-> NoGroupState, last |-> NoE, lkey |-> NoKey, su |-> FALSE]
 
 \* group-scoped state: exactly what a storage snapshot captures and a rollback restores
 NoGroup == [ mls      |-> "none",    \* "none" | "ok" | "evicted"
@@ -119,9 +120,10 @@ MsgKeyLess(a, b) == \/ a.ca < b.ca
 
 \* Group::update_last_message_if_newer against the cached triple
 UpdateLast(cs, g, mid, m) ==
-    LET r == cs.g[g].rec IN
-    IF r.last = NoE \/ ~(<<g, r.last>> \in DOMAIN cs.msgs) THEN [cs EXCEPT !.g[g].rec.last = mid]
-    ELSE IF MsgKeyLess(cs.msgs[<<g, r.last>>], m) THEN [cs EXCEPT !.g[g].rec.last = mid]
+    LET r == cs.g[g].rec
+        k == [ca |-> m.ca, pa |-> m.pa, idr |-> m.idr] IN
+    IF r.last = NoE \/ MsgKeyLess(r.lkey, k)
+    THEN [cs EXCEPT !.g[g].rec.last = mid, !.g[g].rec.lkey = k]
     ELSE cs
 
 -----------------------------------------------------------------------------
@@ -412,7 +414,7 @@ InitState == [ ginfo |-> [g \in Groups |-> NoGInfo],
                wl    |-> <<>>,
                welc  |-> [c \in Clients |-> <<>>],
                pwelc |-> [c \in Clients |-> <<>>],
-               hist  |-> [mergedNoSnap |-> {}, lastRes |-> "", notifs |-> <<>>, late |-> {}, tried |-> {}, q |-> FALSE, aheadOfRefs |-> {}, lostTs |-> {}] ]
+               hist  |-> [mergedNoSnap |-> {}, lastRes |-> "", notifs |-> <<>>, late |-> {}, tried |-> {}, q |-> FALSE, aheadOfRefs |-> {}, lostTs |-> {}, ptrStale |-> {}] ]
 
 Init ==
     /\ ginfo = InitState.ginfo
@@ -445,7 +447,7 @@ CreateGroup(c, g, members, admins, nid, base) ==
     /\ LET init == [members |-> members \cup {c}, admins |-> admins, name |-> "name0-" \o g,
                     desc |-> "desc0-" \o g, nid |-> nid, relays |-> {"wss://r1.example"}]
            gs(su) == [NoGroup EXCEPT !.mls = "ok",
-                                     !.rec = [st |-> "active", epoch |-> base, data |-> init, last |-> NoE, su |-> su]]
+                                     !.rec = [st |-> "active", epoch |-> base, data |-> init, last |-> NoE, lkey |-> NoKey, su |-> su]]
        IN  /\ ginfo' = [ginfo EXCEPT ![g] = [base |-> base, init |-> init]]
            /\ cl' = [x \in Clients |-> IF x = c THEN [cl[x] EXCEPT ![g] = gs(FALSE)]
                                        ELSE IF x \in members THEN [cl[x] EXCEPT ![g] = gs(TRUE)]
@@ -574,7 +576,7 @@ ProcessWelcome(c, w) ==
             /\ UNCHANGED <<cl, welc>>
        ELSE \* saves a Pending group record (overwriting whatever record exists for that MLS group id)
             /\ cl' = [cl EXCEPT ![c][g].rec = [st |-> "pending", epoch |-> EpochOf(g, wl[w].chain),
-                                               data |-> GS(g, wl[w].chain), last |-> NoE, su |-> TRUE]]
+                                               data |-> GS(g, wl[w].chain), last |-> NoE, lkey |-> NoKey, su |-> TRUE]]
             /\ pwelc' = [pwelc EXCEPT ![c] = (w :> "processed") @@ @]
             /\ welc' = [welc EXCEPT ![c] = (w :> "pending") @@ @]
     /\ hist' = [hist EXCEPT !.lastRes = ProcessWelcomeRes(c, w)]
@@ -604,6 +606,12 @@ OutsideWindow(c, e) ==
         d == EpochOf(g, cl[c][g].chain) - EpochOf(g, ev[e].parent) IN
     d > Lookback \/ (ev[e].kind = "app" /\ d > MaxPast)
 
+\* expected pointer computed on a packed client state
+ExpectedLastCS(cs, g) ==
+    LET V == {k \in DOMAIN cs.msgs : k[1] = g /\ cs.msgs[k].state # "epoch_invalidated"} IN
+    IF V = {} THEN NoE
+    ELSE (CHOOSE k \in V : \A j \in V \ {k} : MsgKeyLess(cs.msgs[j], cs.msgs[k]))[2]
+
 \* process_message
 Deliver(c, e, nm) ==
     /\ e \in DOMAIN ev /\ e \notin withdrawn
@@ -616,6 +624,9 @@ Deliver(c, e, nm) ==
            /\ hist' = [hist EXCEPT !.lastRes = r.res, !.notifs = r.cs.notif,
                                    !.tried = @ \cup {<<c, e>>},
                                    !.late = IF <<c, e>> \notin hist.tried /\ OutsideWindow(c, e) THEN @ \cup {<<c, e>>} ELSE @,
+                                   !.ptrStale = IF r.cs.notif # <<>> THEN @ \cup {<<c, g0>>}
+                                                ELSE IF r.cs.g[g0].rec.last = ExpectedLastCS(r.cs, g0) THEN @ \ {<<c, g0>>}
+                                                ELSE @,
                                    !.aheadOfRefs = IF ev[e].kind = "commit" /\ ~(ev[e].refs \subseteq cl[c][g0].props)
                                                       /\ ev[e].parent = cl[c][g0].chain
                                                    THEN @ \cup {<<c, e>>} ELSE @]
@@ -792,11 +803,33 @@ Handled(c, e) ==
        /\ msgs[c][<<g, ev[e].msg.id>>].state = "processed"
        /\ msgs[c][<<g, ev[e].msg.id>>].w = e                             \* stored / echoed message
 
+\* --- C03: a client stores a message only if its user was a member in the epoch the message was sent in ---
+C03_OnlyMembers == \A c \in Clients : \A k \in DOMAIN msgs[c] :
+                      LET e == msgs[c][k].w IN
+                      e \in DOMAIN ev => c \in GS(k[1], ev[e].parent).members
+
 \* --- C08: the stored record mirrors the MLS state (checked after every call) ---
 C08_Mirror == \A c \in Clients, g \in Groups :
                  (cl[c][g].mls = "ok" /\ cl[c][g].rec.st = "active") =>
                     /\ cl[c][g].rec.epoch = EpochOf(g, cl[c][g].chain)
                     /\ cl[c][g].rec.data = GS(g, cl[c][g].chain)
+
+\* --- C18 (MDK level): the cached last-message pointer designates the first message of the default order
+\*     among the group's messages that are not invalidated, or nothing
+ValidMsgs(c, g) == {k \in DOMAIN msgs[c] : k[1] = g /\ msgs[c][k].state # "epoch_invalidated"}
+ExpectedLast(c, g) ==
+    IF ValidMsgs(c, g) = {} THEN NoE
+    ELSE LET top == CHOOSE k \in ValidMsgs(c, g) : \A j \in ValidMsgs(c, g) \ {k} : MsgKeyLess(msgs[c][j], msgs[c][k])
+         IN  top[2]
+\* finding RollbackStalePointer: a rollback restores the pointer cached in the snapshot; messages stored since
+\* (and still valid) are no longer designated, or an invalidated one is
+C18_Ex(pr) == \A c \in Clients, g \in Groups :
+    cl[c][g].rec.st \in {"active", "inactive"} =>
+       \/ cl[c][g].rec.last = ExpectedLast(c, g)
+       \/ /\ "RollbackStalePointer" \in Dev /\ <<c, g>> \in hist.ptrStale
+          /\ pr => PrintT(<<"KNOWN-FINDING", "C18", "RollbackStalePointer", c, g>>)
+       \/ (pr /\ PrintT("VIOLATION-DETAIL " \o ToString(<<"C18 pointer", c, g, cl[c][g].rec.last, "expected", ExpectedLast(c, g)>>)) /\ FALSE)
+C18_Pointer == C18_Ex(TRUE)
 
 \* --- C20: snapshots bounded; storage and queue agree ---
 C20_Bounded == \A c \in Clients, g \in Groups :
